@@ -152,6 +152,12 @@ func semanticMutant(r *rand.Rand, g *gram.Grammar) *mutant {
 			return nil
 		}
 		d := defs[r.Intn(len(defs))]
+		switch r.Intn(3) {
+		case 0:
+			d = defs[0] // the very first definition of the file
+		case 1:
+			d = defs[len(defs)-1]
+		}
 		at := defs[r.Intn(len(defs))][1] // insert the copy after some lexical definition
 		dup := cloneToks(toks[d[0]:d[1]])
 		out := append(cloneToks(toks[:at]), append(dup, toks[at:]...)...)
